@@ -203,6 +203,13 @@ def run_functional(ctx, case):
     # the other backend agrees
     other = R.call(theta if backend == 'torch' else torch.tensor(theta), dim, rank, field, opt)
     ctx.close(_np(other), x, tol * 10, f'{name}: numpy and torch functional agree', max(1.0, float(np.abs(x).max())))
+    if name == 'stiefel_qr':
+        # exactly vanishing parameters (a zero sample in a batch): QR still returns an isometry (the factor is not unique there, so only the constraint is judged)
+        z = np.zeros((2, n), dtype=theta.dtype)
+        z[1] = theta.reshape(-1, n)[0]
+        for zz in (z, torch.tensor(z)):
+            xz = _np(R.call(zz, dim, rank, field, opt))
+            ctx.close(np.einsum('bij,bik->bjk', xz.conj(), xz), np.broadcast_to(np.eye(rank), (2, rank, rank)), tol, f'{name}: X^dagger X = I also for an exactly vanishing parameter sample')
 
 
 @st.composite
